@@ -219,17 +219,45 @@ def run_glob_case(order, grepo):
     return not bad, obs
 
 
+def run_string_main(prov, how):
+    """the MAIN model is given as a string (no file name); it imports a file by absolute path or through the provider's search path"""
+    from textx import metamodel_from_str
+    from textx.scoping import providers as P
+
+    d = os.path.join(core.rundir(), "c17str-%d" % os.getpid())
+    os.makedirs(d, exist_ok=True)
+    with open(os.path.join(d, "lib.m"), "w") as f:
+        f.write("i a i b r a")
+    mm = metamodel_from_str("Model: imports*=Import items*=Item; Import: 'import' importURI=STRING; Item: 'i' name=ID ('r' ref=[Item])?;")
+    kw = {"search_path": [d]} if how == "search-path" else {}
+    mm.register_scope_providers({"*.*": getattr(P, prov)(**kw)})
+    uri = "lib.m" if how == "search-path" else os.path.join(d, "lib.m")
+    obs = {"provider": prov, "import_written_as": how, "main": "string"}
+    bad = []
+    try:
+        m = mm.model_from_str('import "%s" i x r a i y r x' % uri)
+        libs = [x for x in m._tx_model_repository.all_models if x is not m]
+        if len(libs) != 1:
+            bad.append(("models loaded", len(libs)))
+        elif m.items[0].ref is not libs[0].items[0] or m.items[1].ref is not m.items[0]:
+            bad.append(("reference targets",))
+    except Exception as e:
+        bad.append(("exception", "%s: %s" % (type(e).__name__, str(e).replace(d, "<dir>")[:120])))
+    obs["failures"] = bad
+    return not bad, obs
+
+
 def work_glob(arg):
     u = Unit()
     for order, grepo in arg:
-        cid = ["glob-two-languages", list(order), grepo]
+        cid = ["string-main", order, grepo] if isinstance(order, str) else ["glob-two-languages", list(order), grepo]
         with watchdog(30):
-            ok, obs = run_glob_case(order, grepo)
-        u.case(cid, nontrivial=True, sample=obs if list(order) == [1, 0, 3, 2] else None)
+            ok, obs = run_string_main(order, grepo) if isinstance(order, str) else run_glob_case(order, grepo)
+        u.case(cid, nontrivial=True, sample=obs if isinstance(order, str) or list(order) == [1, 0, 3, 2, 4] else None)
         u.transitions += 1
         u.count("glob import over two languages")
         if not ok:
-            u.fail(cid, {"glob": [list(order), grepo]}, sig="glob " + str(obs["failures"][0][0])[:40], what=str(obs)[:500])
+            u.fail(cid, {"glob": [order if isinstance(order, str) else list(order), grepo]}, sig="glob " + str(obs["failures"][0][0])[:40], what=str(obs)[:500])
     return u
 
 
@@ -273,6 +301,7 @@ def run(ctx):
     import itertools
 
     gl = [(o, gr) for o in itertools.permutations(range(len(GLOB_FILES))) for gr in (False, True)]
+    gl += [(prov, how) for prov in ("PlainNameImportURI", "FQNImportURI") for how in ("absolute", "search-path")]
     ctx.pmap(work_glob, [gl[i:i + 8] for i in range(0, len(gl), 8)])
     ctx.states = ctx.evaluations
     return {
@@ -285,6 +314,8 @@ def run(ctx):
 
 def replay(p):
     if "glob" in p:
+        if isinstance(p["glob"][0], str):
+            return run_string_main(*p["glob"])
         return run_glob_case(tuple(p["glob"][0]), p["glob"][1])
     g = tuple(tuple(x) for x in p["graph"])
     return run_case(g, p["provider"], p["grepo"], p["builtin"], p["history"])
